@@ -10,6 +10,8 @@ def run(res):
         model_files=["theories/Rib/Run.v"],
         theorem_note="Properties/C03.v: C03_RC_invariant (counters = number of referrers in every reachable state, any cascade order), "
                      "C03_delete_group_verdict / C03_delete_nexthop_verdict (FAILED iff installed and referenced), C03_delete_top_always_succeeds, C03_history_free; "
+                     "C03_referenced_group_iff_referrer_exists / C03_referenced_nexthop_iff_referrer_exists (a counter-sum is non-zero exactly when an installed referrer exists; Rib/RefExists.v), "
+                     "C03_reachable_delete_group / C03_reachable_delete_nexthop (after ANY history: FAILED and unchanged iff installed and some installed entry points at it, acknowledged and gone iff not), C03_reachable_example; "
                      "C03_tree_refuted (v_tree: duplicate group member)",
         trusted=TB + ["hook /repo/rib/verif_hooks.go VerifRefCounts (read-only copy of the counters)"],
         assumptions=["sequential RIB-level calls", "model-free oracle: referrers recounted from RIBContents after every step and compared with the counters; "
